@@ -357,6 +357,8 @@ def run(ctx):
     ctx.run_rule('C14.1b', 'T1', 'the diagnostics container is append-only', r_container_append_only, prog)
     ctx.run_rule('C14.2', 'T4', 'JSON shape: one object, five keys in order, end(), newline', r_json_shape, prog)
     ctx.run_rule('C14.2b', 'T6', 'format dispatch', r_format_dispatch, prog)
+    from props import c09 as _c09
+    ctx.run_rule('C14.2d', 'T10', 'the snippet code counts characters, never bytes (a byte offset inside a multi-byte character aborts the emission half-way)', _c09.r_snippet_units, prog)
     ctx.run_rule('C14.2c', 'T10', 'a snippet is cut from the file its span names', r_snippet_from_span_file, prog)
     ctx.run_rule('C14.3a', 'T10', 'totals: counted by level, human format only, stdout', r_totals, prog)
     ctx.run_rule('C14.3b', 'T10', 'exit status and totals come from the emitted vector', c07.r_exit_status, prog)
